@@ -499,7 +499,7 @@ def run(ctx):
     # to the implementation on these value kinds too (DateHour, 3 / 5 decimal floats, year boundaries, `any` on containers)
     from props import C02
     nt = lambda c, i: i.startswith("(")
-    tsel = [c for c in cases if c.startswith("de.text\t") and c.split("\t")[1] in ("slice", "tape") or c.startswith("de.text\treader:")]
+    tsel = [c for c in cases if c.startswith("de.text\t") and c.split("\t")[1] in ("slice", "tape", "mslice", "etape") or c.startswith("de.text\treader:")]
     C02.walk_model(ctx, tsel, stream="kinds_walk_text")
     bsel = [c for c in cases if c.startswith("de.bin\t") and not c.split("\t")[1].startswith("f")]
     ctx.correspond("kinds_walk_bin", ["de.model.bin" + c[len("de.bin"):] for c in bsel], nontrivial=nt)
@@ -527,12 +527,14 @@ def run_groups(ctx, groups, rng, stream):
         if not g["hdr"]:
             tp.append("reader:%d:%s" % ([mtb, 64 + mtb, 32768][gi % 3], ["-", "1*", "7,3*"][gi % 3]))
         # the remaining public text entry points in rotation
-        extra = ["objreader", "freader:-", "freader:5,1*"][gi % 3]
+        extra = ["objreader", "freader:-", "freader:5,1*", "mslice", "etape"][gi % 5]
         if not (g["hdr"] and extra.startswith("freader")):
             tp.append(extra)
         bp = ["tape", "slice", "reader:%d:%s" % ([mtb + 8, 200 + mtb, 32768][gi % 3], ["-", "1*", "5,3*"][gi % 3])]
         if g["strat"] == "ignore" or g["known"] >= set(g["ids"]):
             bp.append(["fslice", "freader:-", "freader:3,1*"][gi % 3])       # BinaryFlavor::deserialize_* (default strategy = Ignore)
+        # the deserializer-returning builder methods called directly (harness paths added in wave 4)
+        bp.append(["btape", "bslice", "breader:%d:2,9*" % (mtb + 64)][gi % 3])
         g0 = len(cases)
         for p in tp:
             cases.append("\t".join(["de.text", p, enc, shs, hx(txt)]))
@@ -552,7 +554,9 @@ def run_groups(ctx, groups, rng, stream):
             if touts[0] != bouts[0]:
                 ctx.fail("text-bin-i64min", "x=%d: text gives %s, binary (I64 token) gives %s" % (-2 ** 63, touts[0][:80], bouts[0][:80]), gc, go, "equal values")
             continue
-        if tag == "any-object" and et == eb and all(o == et for o in touts) and bouts[0] == eb and all(o == "ERR:syntax" for o in bouts[1:]):
+        bnames = [c.split("\t")[1] for c in gc[nt_:]]
+        if tag == "any-object" and et == eb and all(o == et for o in touts) and \
+                all((o == eb) if "tape" in p else (o == "ERR:syntax") for p, o in zip(bnames, bouts)):
             # finding any-object-ondemand: deserialize_any of the on-demand and the stream binary deserializers hands every `{` to
             # visit_seq (no look-ahead for `=`), the sequence then meets the `=` of the first field
             ctx.fail("any-object-ondemand", "a dynamically typed target on a nested object: text %s = binary tape, binary %s gives %s" % (
